@@ -9,9 +9,13 @@ Only two clauses of the statement are structural and are decided; everything els
  D3 composite stitching in the high-order rule: whenever two sub-interval rules are concatenated as (A, B[1:]) the weight of
     the shared point B[0] has been added to A[-1] of the very same arrays (otherwise the shared point loses one contribution and
     constants are no longer integrated exactly)
+ D4 modified-basis small cases as polynomial identities: with 3 points the single inner weight is b - a; with 4 points the two
+    inner weights add up to b - a and the second one times (x2 - x1) equals the integral of (x - x1) over [a, b]
+    (= (b^2 - a^2)/2 - x1 (b - a)), i.e. the rule integrates the linearly extrapolated basis exactly
 Not decided: exactness of any rule (trapezoidal, high order, Lagrange, B-spline) -- numerical linear algebra."""
 import ast
 import builtins
+from fractions import Fraction
 
 from ..absint import sign_of, is_nonneg, poly_of_term, Poly, NONNEG, POS
 from ..cfg import cfg_of, walk_local
@@ -106,8 +110,9 @@ def run(prog, ctx):
         if b.kind not in ("assign",):
             ctx.violation("C09.D1", R.key_of(cw, "rebinds-array"), cw.loc(b.stmt), "the weight array is re-bound by `%s`" % src(b.stmt))
 
-    # ------------------------------------------------------------------ D3
+    # ------------------------------------------------------------------ D3 / D4
     check_stitching(prog, ctx)
+    check_modified_small_cases(prog, ctx, cw)
 
     # ------------------------------------------------------------------ D2
     cq = prog.func(GT + ".compute_1D_quad_weights")
@@ -203,3 +208,50 @@ def check_stitching(prog, ctx):
                       "`%s` drops the first weight of %s but that weight was not added to %s[-1] of the same array: the point shared by the two "
                       "sub-intervals loses one contribution" % (src(call), show(B[1]), show(A)))
     ctx.floor("C09.D3", n, 4, "overlap-add concatenations in the high-order rule")
+
+
+def check_modified_small_cases(prog, ctx, cw):
+    tm = Terms(cw.node, max_depth=0)
+    c = cfg_of(cw)
+    pts, a, b, flag = cw.params[0], cw.params[1], cw.params[2], cw.params[3]
+    A, B = Poly.atom(("n", a)), Poly.atom(("n", b))
+    g = lambda k: Poly.atom(("s", ("n", pts), ("c", str(k))))
+    half = Poly.const(Fraction(1, 2))
+    cases = {}
+    for n in c.nodes:
+        if n.kind == "stmt" and isinstance(n.ast, ast.Assign) and isinstance(n.ast.targets[0], ast.Subscript) and n.idx in c.reachable():
+            guards = [gd for (gd, gn) in R.dominating_guards(cw, n, tm) if gn.kind == "test"]
+            size = None
+            for gd in guards:
+                if gd[0] == "cmp" and gd[1] == "Eq" and ("call", ("n", "len"), (("n", pts),), ()) in (gd[2], gd[3]):
+                    other = gd[3] if gd[2][0] == "call" else gd[2]
+                    if other[0] == "c":
+                        size = int(other[1])
+            if size is not None and ("n", flag) in guards:
+                idx = tm.term(n.ast.targets[0].slice)
+                if idx[0] == "c":
+                    cases.setdefault(size, {})[int(idx[1])] = (n, tm.term(n.ast.value))
+    ok3 = 3 in cases and 1 in cases[3] and poly_of_term(cases[3][1][1]) == B - A
+    ctx.check(ok3, "C09.D4", R.key_of(cw, "modified-3-points"), cw.loc(cases[3][1][0].ast) if 3 in cases and 1 in cases[3] else cw.loc(),
+              "3 points, modified basis: the inner weight is b - a", "the 3-point modified-basis weight is not b - a")
+    ok4 = False
+    why = "the 4-point modified-basis case was not found"
+    if 4 in cases and 1 in cases[4] and 2 in cases[4]:
+        w2n, w2 = cases[4][2]
+        w1n, w1 = cases[4][1]
+        # w1 refers to weights[2]: substitute
+        wname = w1n.ast.targets[0].value.id
+        W2 = Poly.atom(("s", ("n", wname), ("c", "2")))
+        p1 = poly_of_term(w1)
+        sum_ok = (p1 + W2) == (B - A) and c.dominates(w2n, w1n)
+        # w2 * (x2 - x1) == (b^2 - a^2)/2 - x1 (b - a)
+        den = g(2) - g(1)
+        spec = (B * B - A * A) * half - g(1) * (B - A)
+        ok_int = False
+        if w2[0] == "op" and w2[1] == "Div":
+            ok_int = poly_of_term(w2[2][1]) == den and poly_of_term(w2[2][0]) == spec
+        ok4 = sum_ok and ok_int
+        why = "inner weights add up to b - a: %s; second weight * (x2 - x1) equals the integral of (x - x1) over [a, b]: %s" % (sum_ok, ok_int)
+    ctx.check(ok4, "C09.D4", R.key_of(cw, "modified-4-points"), cw.loc(cases[4][2][0].ast) if 4 in cases and 2 in cases[4] else cw.loc(),
+              "4 points, modified basis: w1 + w2 == b - a and w2 integrates the extrapolated basis (x - x1)/(x2 - x1) exactly",
+              "4-point modified-basis weights: " + why)
